@@ -530,6 +530,13 @@ MoveInfo Position::do_move(Move move)
             set_enpassant_square(NO_SQUARE);
     }
 
+    if (_history_counter == MAX_PLIES)
+    {
+        // the buffer is full: keep the most recent half. Older positions cannot recur
+        // any more, the 50-move rule ends a game long before MAX_PLIES / 2 reversible plies
+        std::copy(_history + MAX_PLIES / 2, _history + MAX_PLIES, _history);
+        _history_counter = MAX_PLIES / 2;
+    }
     assert(_history_counter < MAX_PLIES);
     _history[_history_counter++] = _zobrist_hash.get_key();
 
